@@ -28,10 +28,10 @@ def consts(**kw):
 
 
 def mc_run(v, wd, name, c, init="MCInit", invs=INVS, timeout=600, expect=None, simulate=None,
-           depth=None):
-    cfg = write_cfg(os.path.join(wd, name + ".cfg"), c, init=init, next_="MCNext",
-                    invariants=invs, view="View")
-    r = tlc_check(wd, name, "MCSync.tla", cfg, timeout=timeout, simulate=simulate, depth=depth,
+           depth=None, module="MCSync.tla", next_="MCNext", view="View"):
+    cfg = write_cfg(os.path.join(wd, name + ".cfg"), c, init=init, next_=next_,
+                    invariants=invs, view=view)
+    r = tlc_check(wd, name, module, cfg, timeout=timeout, simulate=simulate, depth=depth,
                   seed_=seed())
     log(f"[mc] {name}: {r['distinct']} distinct / {r['states']} generated, depth {r['depth']}, "
         f"{r['wall_s']}s, violated={r['violated']}, timed_out={r['timed_out']}")
@@ -40,15 +40,23 @@ def mc_run(v, wd, name, c, init="MCInit", invs=INVS, timeout=600, expect=None, s
 
 
 def gen_schedules(wd, name, c, init="MCInit", simulate=None, depth=None, timeout=300,
-                  limit=None, seed_=None):
+                  limit=None, seed_=None, module="MCSync.tla", next_="MCNext", emit="EmitReplay",
+                  constraint=None):
     c = dict(c)
     c["Emit"] = True
-    cfg = write_cfg(os.path.join(wd, name + ".cfg"), c, init=init, next_="MCNext",
-                    invariants=["EmitReplay"])
-    r = tlc_check(wd, name, "MCSync.tla", cfg, timeout=timeout, simulate=simulate, depth=depth,
+    cfg = write_cfg(os.path.join(wd, name + ".cfg"), c, init=init, next_=next_,
+                    invariants=[emit], constraint=constraint)
+    r = tlc_check(wd, name, module, cfg, timeout=timeout, simulate=simulate, depth=depth,
                   seed_=seed_ if seed_ is not None else seed(), workers=1 if simulate else None)
+    if os.path.getsize(r["out"]) > 3_000_000_000:
+        os.remove(r["out"])
+        raise RuntimeError(f"{name}: schedule output too large; tighten the bounds")
     sch = replay_lines(r["out"])
     sch = drop_prefixes(sch)
+    if simulate and not limit:
+        # TLC evaluates the emitting invariant on every candidate successor, so a simulation
+        # run yields several sibling schedules per behaviour; keep a sample
+        limit = simulate * 3
     if limit and len(sch) > limit:
         rnd = random.Random(seed())
         sch = rnd.sample(sch, limit)
@@ -167,3 +175,41 @@ def conform(v, wd, name, c, schedules, storage="mem", valclass="ascii", invs=INV
 
 def distinct_count(schedules):
     return len({json.dumps(s) for s in schedules})
+
+
+# ---- replica-local family (MCReplica.tla)
+RBASE = dict(BASE, MaxBatch=2, Alphabet={"C", "D", "U", "P"}, Statuses=set(),
+             LocalKinds={"Batch"}, MaxWS=0, OnlyValid=False, EmitAll=False)
+
+
+def rconsts(**kw):
+    c = dict(RBASE)
+    c.update(kw)
+    return c
+
+
+def rmc(v, wd, name, c, init="RInit", invs=("TypeOK", "ReplicaInvariant"), timeout=600, expect=None):
+    return mc_run(v, wd, name, c, init=init, invs=list(invs), timeout=timeout, expect=expect,
+                  module="MCReplica.tla", next_="RNext", view="RView")
+
+
+def rgen(wd, name, c, init="RInit", simulate=None, depth=None, timeout=300, limit=None, seed_=None):
+    c = dict(c, EmitAll=not simulate)
+    return gen_schedules(wd, name, c, init=init, simulate=simulate, depth=depth, timeout=timeout,
+                         limit=limit, seed_=seed_, module="MCReplica.tla", next_="RNext",
+                         emit="REmit", constraint=None if simulate else "HBound")
+
+
+def storage_fault_sweep(schedules, action, kmax, per=1):
+    """For each schedule insert a StorageFault before its last `action` step, k = 1..kmax."""
+    out = []
+    for h in schedules[:per] if per else schedules:
+        idx = [i for i, s in enumerate(h) if s["a"] == action]
+        if not idx:
+            continue
+        pos = idx[-1]
+        for k in range(1, kmax + 1):
+            hh = list(h)
+            hh.insert(pos, {"a": "StorageFault", "r": h[pos]["r"], "k": k, "ops": [], "urg": "-"})
+            out.append(hh)
+    return out
